@@ -48,8 +48,9 @@ MODEL_SCOPE = ("modelled by hand and tied by the lex lane (not verified against 
 prop(
     "C01",
     ["LolHtml.Thm.C01"],
-    [{"lane": "lex", "n_quick": 4000, "n_thorough": 200000}],
-    LEX_RULE,
+    [{"lane": "lex", "n_quick": 4000, "n_thorough": 200000},
+     {"lane": "pass", "n_quick": 3000, "n_thorough": 60000, "impl_only": True}],
+    LEX_RULE + "; lane pass (implementation only): public HtmlRewriter in all 36 ASCII-compatible encodings, documents whose text the encoding round-trips, cuts anywhere incl. inside multi-byte characters, 6 observer handler sets",
     ["observing controller = tokens serialise to their raw bytes (the property's own round-trip exception for captured text), emission never disabled, nothing appended at document end",
      "runs that reach one of the model's explicit panic branches (Rust debug assertions / clamped slices) are not successful runs; their unreachability is C15's subject",
      MODEL_SCOPE],
@@ -193,8 +194,9 @@ prop(
 prop(
     "C11",
     ["LolHtml.Thm.C11"],
-    [{"lane": "lex", "n_quick": 2000, "n_thorough": 50000}],
-    LEX_RULE,
+    [{"lane": "fault", "n_quick": 4000, "n_thorough": 100000},
+     {"lane": "proto", "n_quick": 5000, "n_thorough": 100000, "impl_only": True}],
+    LEX_RULE + "; lane fault = lane lex plus a handler failure injected at token index 1..8, graceful flags, memory limit and preallocation sweeps (model vs real TransformStream); lane proto (implementation only): public HtmlRewriter in all 36 encodings with end / bail-out content, token mutations with empty strings, a failure injected at handler invocation index 1..11 or by memory limit, graceful flags on/off, preallocation sizes, cuts anywhere: byte preservation and bail-out handler count",
     ["proved for observing controllers (handlers that inspect and may FAIL at any invocation but do not mutate); rewritten tokens / removed content / partly emitted text nodes (the property's documented exceptions) are exercised by lanes only",
      "an end-handler failure happens after every received byte was emitted; the bail-out handlers are not run then (as coded and as the repository's own test expects)",
      MODEL_SCOPE],
@@ -212,8 +214,9 @@ prop(
 prop(
     "C12",
     ["LolHtml.Thm.C12"],
-    [{"lane": "lex", "n_quick": 2000, "n_thorough": 50000}],
-    LEX_RULE,
+    [{"lane": "fault", "n_quick": 4000, "n_thorough": 100000},
+     {"lane": "proto", "n_quick": 5000, "n_thorough": 100000, "impl_only": True}],
+    LEX_RULE + "; lane fault = lane lex plus injected failures and memory limits; lane proto (implementation only): as for C11, checking the sink-call log against the protocol automaton (encoding first, zero-length chunk exactly once and last on success, never on failure, use after error panics silently)",
     ["content written by end / bail-out handlers goes through the text encoder and is never an empty slice (CleanEnds; the encoder fact is C13_encoder)",
      "'prefix of the failure-free run' is proved only as monotonicity of the sink log (C12_monotone); the comparison of two runs is checked by lanes",
      MODEL_SCOPE],
@@ -238,12 +241,11 @@ prop(
                 "handles never reused, freed objects never touched (C17_ownership_ledger), drop callback exactly once "
                 "(C17_drop_callback_once), end takes the inner value and free afterwards is a no-op on it, invalid UTF-8 never "
                 "reaches R, Ok/Err map to 0/-1 with LAST_ERROR set on the calling thread (C17_failure_sets_last_error), each "
-                "entry point = decode; call R; encode (C17_wrapper_unit). The full header-precondition safety statement is "
+                "entry point = decode; call R; encode (C17_wrapper_unit); every -1/NULL of every entry point sets LAST_ERROR incl. the streaming rejections (C17_unit_failure_sets_last_error, C17_streaming_failure_reported). The full header-precondition safety statement is "
                 "REFUTED on the attribute-iterator history (known finding) and proved under the strengthened policy. PARTIAL."),
     level_note="Trusted: Lean kernel; ledger model of c-api/src/*.rs and lol_html.h tied by lane capi.",
     technique="Lean 4 proof (invariant over call histories of an ownership ledger) + correspondence lane",
     design_ref="DESIGN.md section 4 C17",
-    claimed=False,  # TEMP: package being updated to the F21 repair
 )
 
 prop(
@@ -262,4 +264,27 @@ prop(
     level_note="Trusted: Lean kernel; globals translator; ledger model (lane capi); real threads only sampled (lane thr).",
     technique="Lean 4 proof (decidable obligation on the translated global-items list + per-thread slot invariant) + thread lane",
     design_ref="DESIGN.md section 4 C18",
+)
+
+
+prop(
+    "C07",
+    ["LolHtml.Thm.C07_Edit"],
+    [{"lane": "edit", "n_quick": 2500, "n_thorough": 30000}],
+    "lane edit: documents built from a token-level grammar (well-formed tags with attributes, end tags, comments, text, doctype; nested / unclosed / stray / void / foreign self-closing elements) x cut positions x handler scripts (selector restricted to type selectors and *, all Element / start_tag / end_tag / comment / text / doctype / document-end operations with arbitrary strings, both content types, streaming handlers, several handlers per token, on_end_tag): real HtmlRewriter output vs model, documented output (Spec.EditDoc) vs an independent Rust reference editor",
+    ["the token stream is an input of the model (the parser is C01/C02/C16's subject); selectors beyond type selectors and * are C04's",
+     "the whole-document theorem is for CLEAN runs: no element with visible end-region edits is closed implicitly or left open at end of input (outside: known findings F24, F25, refuted by proved counter-examples)",
+     "UTF-8 documents (escaping/encoding of inserted content is an abstract function enc; C08/C13 own it)", PKG_SCOPE],
+    level_text=("Lean 4 theorems, universal over operation scripts, tokens and handler sets: serialising an edited token = "
+                "before1..n ++ (own bytes | last replacement | nothing) ++ after m..1 for every token kind (C07_token_edit); "
+                "untouched attributes keep raw bytes and order, touched ones are name=\"escaped\", last set/remove wins "
+                "(C07_attrs_*); every Element method = its documented edit of the regions before / start tag / prepended / "
+                "inner / appended / end tag / after, incl. no-ops when the element cannot have content (C07_element_ops); the "
+                "emission switch: nothing between a start tag with removed content and its closing end tag reaches the sink, "
+                "emission resumes exactly there (C07_removed_content_*); whole document: for every clean run the sink equals "
+                "Spec.EditDoc.rewrite by a simulation proof (C07_output_eq_edit_spec). The unconditional statement is refuted "
+                "on implicit-close / unclosed-at-EOF shapes (known findings)."),
+    level_note="Trusted: Lean kernel; model of rewritable_units/{mutations,element,tokens/*}.rs and the removed-content logic tied by lane edit; Spec.EditDoc as the reading of the API documentation.",
+    technique="Lean 4 proof (algebraic laws of mutations + simulation to a document-edit specification) + correspondence lane + reference editor",
+    design_ref="DESIGN.md section 4 C07",
 )
